@@ -15,6 +15,8 @@ package main
 //                (not under `if !ok`) and every handler that sends on X handles
 //                only NON-terminating messages (the state map sends the
 //                protocol to a state where the peer still has the agency).
+//   Intra-function only: receives that sit in helpers called by F are not seen (a return between two
+//   helper calls usually separates two complete sub-conversations, e.g. acquire then query).
 //   Returns inside clauses of shutdown channels, of closed-channel (`!ok`)
 //   branches and of channels fed by terminating messages are not walk-aways.
 
